@@ -47,6 +47,22 @@ Example C16_formatted_example :   (* <p><span>xx</span> abc def</p>, "abc" -> "A
   readable_ev (content (fst (repl subn true n))) = [Ch 5; Ch 5; Sp; Ch 7; Tb; Ch 8; Sp; Sp; Ch 9; Sp; Ch 3].
 Proof. repeat split; reflexivity. Qed.
 
+(* F27: the same statement about the model of the PINNED loop is false (Tree.repl_pinned; ids in the attribute field).
+   Witness: Paragraph("xx abc def") with a span on "xx", replace("abc", "A<tab>B  C", formatted=True) reads
+   "xx A<tab>B  C def abc def": the old text is duplicated and the tab stays raw character data. *)
+Definition F27_subn (s : str) : str * nat :=
+  match s with [Sp; Ch 0; Ch 1; Ch 2; Sp; Ch 3] => ([Sp; Ch 7; Tb; Ch 8; Sp; Sp; Ch 9; Sp; Ch 3], 1) | _ => (s, 0) end.
+Definition F27_witness : node :=
+  Node KP 1 false (Some []) [Node KSpan 2 false (Some [Ch 5; Ch 5]) [] (Some [Sp; Ch 0; Ch 1; Ch 2; Sp; Ch 3])] None.
+Theorem C16_formatted_pinned_refuted : exists subn n, wsl n = true /\
+  readable_ev (content (fst (repl_pinned subn n))) <> readable_ev (replace_ev subn (content n)).
+Proof. exists F27_subn, F27_witness. split; [reflexivity|vm_compute; discriminate]. Qed.
+Print Assumptions C16_formatted_pinned_refuted.
+Example F27_pinned_result :   (* <p><span>xx</span> A<TAB>B  C def<text:s/>abc def</p> — what the pinned implementation produces *)
+  content (fst (repl_pinned F27_subn F27_witness)) =
+  [Txt []; Open KSpan 2; Txt [Ch 5; Ch 5]; Close; Txt [Sp; Ch 7; Tb; Ch 8; Sp; Sp; Ch 9; Sp; Ch 3]; Open (KS 1) 0; Close; Txt [Ch 0; Ch 1; Ch 2; Sp; Ch 3]].
+Proof. reflexivity. Qed.
+
 (* search*: what the code computes, and what the property asks *)
 Theorem C16_search_is_regex_on_text_recursive : forall find n,
   search_ find n = option_map fst (find (inner_text n ++ oget (tail_of n))).
